@@ -93,27 +93,31 @@ inductive BErr where
   | store (e : Store.Err)
 deriving DecidableEq, Repr
 
+/-- a storage-layer result inside a builtin: its exception propagates -/
+def BErr.lift {α : Type} : Except Store.Err α → Except BErr α
+  | .ok a => .ok a
+  | .error e => .error (.store e)
+
+/-- the message of `_verify_bucket_exists` -/
+def noBucketMsg (b : String) : String := "There's no bucket named '" ++ b ++ "'"
+
 /-- `_verify_bucket_exists` -/
 def verifyBucketExists (r : Reads D) (b : String) : Except BErr Unit :=
-  if b ∈ r.buckets then .ok () else .error (.func ("There's no bucket named '" ++ b ++ "'"))
+  if b ∈ r.buckets then .ok () else .error (.func (noBucketMsg b))
 
 /-- `q2_query_bucket`: `datastore[b].get(starttime=S, endtime=E)` -/
 def queryBucket (r : Reads D) (b : String) (S E : Int) : Except BErr (List (Ev D)) :=
   match verifyBucketExists r b with
   | .error e => .error e
   | .ok () =>
-    match r.get b (-1) (roundWin (some S) (some E)).1 (roundWin (some S) (some E)).2 with
-    | .ok es => .ok es
-    | .error e => .error (.store e)
+    BErr.lift (r.get b (-1) (roundWin (some S) (some E)).1 (roundWin (some S) (some E)).2)
 
 /-- `q2_query_bucket_eventcount`: `datastore[b].get_eventcount(starttime=S, endtime=E)` -/
 def queryBucketEventcount (r : Reads D) (b : String) (S E : Int) : Except BErr Nat :=
   match verifyBucketExists r b with
   | .error e => .error e
   | .ok () =>
-    match r.count b (some S) (some E) with
-    | .ok n => .ok n
-    | .error e => .error (.store e)
+    BErr.lift (r.count b (some S) (some E))
 
 /-- `pat in s` on strings -/
 def isInfixB (pat : List Char) : List Char → Bool
@@ -133,7 +137,9 @@ def findBucketLoop (r : Reads D) (filterStr : String) (hostname : Option String)
   | b :: rest =>
     if isInfixB filterStr.toList b.toList then
       match r.hostname b with
-      | none => .error (.store .valueError)           -- `get_metadata` raised
+      -- `get_metadata` raised (ValueError on sqlite/memory; cannot happen for a listed bucket:
+      -- `AwProofs` `hostname_listed_*`)
+      | none => .error (.store .valueError)
       | some hn =>
         match truthyHost hostname with
         | some h => if hn = h then .ok b else findBucketLoop r filterStr hostname rest
